@@ -3,7 +3,8 @@
    several times and stores may follow a Close (the pattern of
    compute_dyadic_scales: write scale 1, close, write scale 2, close).
 
-   What the code does (sharded_file_accessor.py, read at /repo 95d7b2e):
+   What the code does (sharded_file_accessor.py, read at /repo 95d7b2e plus the close-retry
+   repair: the data buffers are released at the end of a successful Shard.close):
    * ShardedFileAccessor.close -> every ShardedScale in insertion order ->
      every Shard in insertion order -> Shard.close.  The first exception
      aborts the whole close; the remaining shards stay as they are.
@@ -11,9 +12,9 @@
      does nothing to it and leaves its file alone.
    * Shard.close of a dirty shard truncates the file ("wb"), writes the zero
      header, then for every minishard in key order: minishard.close(), its
-     data, minishard.offset = ..., and  del minishard.databytearray .  The
-     MiniShard OBJECTS stay in minishard_dict.  Only at the very end dirty is
-     reset.
+     data, minishard.offset = ...; at the very end dirty is reset and then
+     del minishard.databytearray  for every minishard.  The MiniShard OBJECTS
+     stay in minishard_dict.
    * Hence a store into a shard that was already closed makes it dirty again,
      and then
        - a store that is the next expected identifier of an already closed
@@ -25,7 +26,10 @@
          gap filling, or when iterating its data): the chunks written by the
          first Close are LOST (the file keeps the zero header and the data of
          the minishards that come before in key order), dirty stays set, and
-         the rest of the accessor is not closed.
+         the rest of the accessor is not closed.  The buffers of the
+         minishards handled before the exception are NOT deleted (the
+         deletion happens after the file is complete), so a further Close
+         fails in the same way and leaves the same file.
      This is modelled exactly; the theorems of C05 are about sessions that do
      not store into a closed shard.
 
@@ -159,48 +163,52 @@ Definition dead_close (sp : sparams) (st : mini) : mini * sout :=
 
 (* first loop of Shard.close over the minishards in key order, stopping at the
    first exception.  Result: updated minishards (in the same order), data
-   written, minishards whose buffer is now deleted, outcome. *)
+   written, the minishards that were closed and written (their buffers are
+   deleted at the very END of a successful Shard.close only), outcome. *)
 Fixpoint close_minis_sess (sp : sparams) (sk : N) (dead : list (N * N)) (l : list (N * mini)) (data : bytes)
-  : list (N * mini) * bytes * list (N * N) * sout :=
+  : list (N * mini) * bytes * list N * sout :=
   match l with
-  | [] => ([], data, dead, sok)
+  | [] => ([], data, [], sok)
   | (mk, ms) :: r =>
       if pair_mem sk mk dead then
-        let '(ms1, o) := dead_close sp ms in ((mk, ms1) :: r, data, dead, o)
+        let '(ms1, o) := dead_close sp ms in ((mk, ms1) :: r, data, [], o)
       else
         let '(ms1, res) := ms_close sp ms in
         match res with
         | Ok _ =>
             match set_offset ms1 (lenN data) with
             | Ok ms2 =>
-                let '(rest, d, dd, o) := close_minis_sess sp sk ((sk, mk) :: dead) r (data ++ ms_data ms1) in
-                ((mk, ms2) :: rest, d, dd, o)
-            | _ => ((mk, ms1) :: r, data ++ ms_data ms1, dead, SOut (Crash IndexError))   (* header[1] = ... *)
+                let '(rest, d, done, o) := close_minis_sess sp sk dead r (data ++ ms_data ms1) in
+                ((mk, ms2) :: rest, d, mk :: done, o)
+            | _ => ((mk, ms1) :: r, data ++ ms_data ms1, [], SOut (Crash IndexError))   (* header[1] = ... *)
             end
-        | e => ((mk, ms1) :: r, data, dead, SOut e)
+        | e => ((mk, ms1) :: r, data, [], SOut e)
         end
   end.
 
 (* Shard.close.  Result: the Shard object, what the file now contains (None: not
-   touched), the deleted buffers, the outcome. *)
+   touched), the deleted buffers, the outcome.  The buffers of the minishards
+   are deleted (for b in sorted_mini_dict: del minishard.databytearray) only
+   after the file is complete and dirty has been reset: when anything raises
+   before, every buffer that was alive stays alive and the close can be
+   retried. *)
 Definition shard_close_sess (sp : sparams) (sk : N) (dead : list (N * N)) (sh : shard)
   : shard * option bytes * list (N * N) * sout :=
   if negb (sh_dirty sh) then (sh, None, dead, sok) else
   let zeros := repeat 0 (N.to_nat (header_len_model (sp_m sp))) in
-  let '(minis, data, dead', o) := close_minis_sess sp sk dead (sort_by_key (sh_minis sh)) [] in
+  let '(minis, data, done, o) := close_minis_sess sp sk dead (sort_by_key (sh_minis sh)) [] in
+  let failed (e : sout) := ({| sh_minis := minis; sh_dirty := true |}, Some (zeros ++ data), dead, e) in
   match o with
   | SOut (Ok _) =>
+      let dead' := map (fun mk => (sk, mk)) done ++ dead in
       match shard_close sp idx_enc {| sh_minis := sh_minis sh; sh_dirty := true |} with
       | Ok (Some b) => ({| sh_minis := minis; sh_dirty := false |}, Some b, dead', sok)
       | Ok None => ({| sh_minis := minis; sh_dirty := false |}, None, dead', sok)      (* not reachable: dirty *)
-      | FormatErr => ({| sh_minis := minis; sh_dirty := true |}, Some (zeros ++ data), dead', SOut FormatErr)
-      | InfoErr => ({| sh_minis := minis; sh_dirty := true |}, Some (zeros ++ data), dead', SOut InfoErr)
-      | AccessErr => ({| sh_minis := minis; sh_dirty := true |}, Some (zeros ++ data), dead', SOut AccessErr)
-      | IOErr => ({| sh_minis := minis; sh_dirty := true |}, Some (zeros ++ data), dead', SOut IOErr)
-      | Refused => ({| sh_minis := minis; sh_dirty := true |}, Some (zeros ++ data), dead', SOut Refused)
-      | Crash c => ({| sh_minis := minis; sh_dirty := true |}, Some (zeros ++ data), dead', SOut (Crash c))
+      | FormatErr => failed (SOut FormatErr) | InfoErr => failed (SOut InfoErr)
+      | AccessErr => failed (SOut AccessErr) | IOErr => failed (SOut IOErr)
+      | Refused => failed (SOut Refused) | Crash c => failed (SOut (Crash c))
       end
-  | e => ({| sh_minis := minis; sh_dirty := true |}, Some (zeros ++ data), dead', e)
+  | e => failed e
   end.
 
 (* ShardedScale.close: the shards in insertion order, stop at the first exception *)
